@@ -152,6 +152,10 @@ func makePlaintextRedirects(allConfigs []*SiteConfig) []*SiteConfig {
 	httpsPort := strconv.Itoa(certmagic.HTTPSPort)
 	for i, cfg := range allConfigs {
 		if cfg.TLS.Enabled &&
+			// an explicitly plain-HTTP site that merely carries a tls directive is
+			// not an HTTPS site (MakeServers turns its TLS off): redirecting "to" it
+			// would replace the site by a redirect to https on the HTTP port
+			cfg.Addr.Port != httpPort && cfg.Addr.Scheme != "http" &&
 			!cfg.TLS.NoRedirect &&
 			!hostHasOtherPort(allConfigs, i, httpPort) &&
 			(cfg.Addr.Port == httpsPort || !hostHasOtherPort(allConfigs, i, httpsPort)) {
